@@ -9,18 +9,21 @@
        for _, rule := range rules { parts, _ := iec.Encode(rule, payload); encoded = append(encoded, parts) }
 
    iec.Encode -> reedsolomon.Split re-uses (and zeroes) spare capacity of its input; data shards alias the
-   payload buffer. Guard = FALSE is the deviation switch that removes the capacity trimming: the model then
-   has a counterexample (later rules overwrite padding/parity of earlier ones), which the check replays on
-   the real iec.Encode to show that the modelled hazard exists in the library.                              *)
+   payload buffer. CapMode selects the capacity policy: "exact" is the code; "pool" (no trimming) and
+   "alignFirst" (rounded up to the first rule's data count) are deviations for which the model MUST have a
+   counterexample (later rules overwrite padding/parity of earlier ones; the first one is replayed on the real
+   iec.Encode to show that the modelled hazard exists in the library); "any" explores every capacity.       *)
 EXTENDS ECCode
 CONSTANTS MRules,       \* set of rules <<k, m>>
           MaxRuleSeq,   \* 1..MaxRuleSeq rules per policy
-          MaxLen, PoolCap, Guard
+          MaxLen, PoolCap,
+          CapMode       \* how the capacity of the buffer handed to the EC library is chosen (see GetBuf)
 VARIABLES rules, L, mem, encs, pc
 vars == <<rules, L, mem, encs, pc>>
 
 \* rule sets for the cfgs (cfg files cannot contain tuples)
 RulesSmall == {<<1, 0>>, <<1, 1>>, <<2, 1>>, <<3, 1>>, <<2, 2>>, <<3, 2>>}
+RulesAlign == {<<4, 1>>, <<5, 1>>, <<2, 1>>, <<1, 1>>, <<3, 2>>}
 RulesMore == RulesSmall \cup {<<2, 0>>, <<4, 2>>, <<3, 3>>, <<5, 1>>}
 
 RuleSeqs == UNION {[1..n -> MRules] : n \in 1..MaxRuleSeq}
@@ -28,12 +31,19 @@ RuleSeqs == UNION {[1..n -> MRules] : n \in 1..MaxRuleSeq}
 Init == /\ rules \in RuleSeqs /\ L \in 0..MaxLen
         /\ mem = <<>> /\ encs = <<>> /\ pc = "buf"
 
-\* buffer acquisition, capacity trimming and payload copy
+\* buffer acquisition, capacity trimming and payload copy. The capacity actually handed to the EC library is
+\* what matters (spare = cap - L):
+\*   "exact"      the code as is: b = b[:0:payloadLen]                                   (spare = 0)
+\*   "pool"       no trimming: the pooled buffer's capacity                              (deviation, must break)
+\*   "alignFirst" capacity = payload length rounded up to the first rule's data count    (deviation, must break)
+\*   "any"        every capacity L..L+PoolCap (parametric in the observed spare capacity)
+Caps == CASE CapMode = "exact" -> {L}
+          [] CapMode = "pool" -> {IF PoolCap < L THEN L ELSE PoolCap}
+          [] CapMode = "alignFirst" -> {CeilDiv(L, rules[1][1]) * rules[1][1]}
+          [] CapMode = "any" -> L..(L + PoolCap)
 GetBuf ==
   /\ pc = "buf"
-  /\ LET cap0 == IF PoolCap < L THEN L ELSE PoolCap
-         cap == IF cap0 # L /\ Guard THEN L ELSE cap0
-     IN mem' = [c \in 1..cap |-> IF c <= L THEN D(c) ELSE Junk]
+  /\ \E cap \in Caps : mem' = [c \in 1..cap |-> IF c <= L THEN D(c) ELSE Junk]
   /\ pc' = "enc"
   /\ UNCHANGED <<rules, L, encs>>
 
@@ -54,6 +64,12 @@ NoCrossCorruption ==
   \A e \in 1..Len(encs) :
     LET r == rules[e] IN
     \A i \in 1..(r[1] + r[2]) : Deref(encs[e][i], mem) = RefPart(r[1], r[2], L, i)
+\* spare capacity is necessary for corruption, and the one-shot operator used for record validation agrees with
+\* the step-by-step machine
+Corrupted == {e \in 1..Len(encs) : \E i \in 1..(rules[e][1] + rules[e][2]) :
+                 Deref(encs[e][i], mem) # RefPart(rules[e][1], rules[e][2], L, i)}
+CorruptionNeedsSpareCapacity == pc = "enc" /\ Len(mem) = L => Corrupted = {}
+PredictionAgrees == pc = "enc" /\ Len(encs) = Len(rules) => Corrupted = MultiCorrupted(rules, L, Len(mem) - L)
 \* the payload buffer itself is never modified
 PayloadIntact == pc = "enc" => \A c \in 1..L : mem[c] = D(c)
 \* every encoding decodes with m parts erased (checked on the last parts as a representative erasure)
